@@ -12,6 +12,7 @@ VERIF = os.path.dirname(os.path.dirname(os.path.abspath(__file__)))
 PROPS = ["C01","C03","C04","C06","C07","C08","C09","C10","C11","C12","C13","C14","C15","C16","C17","C18","C19","C20"]
 
 def run_one(d, all_props):
+    d = os.path.abspath(d)
     patch = os.path.join(d, "patch.diff")
     if not os.path.exists(patch):
         return d, None, "no patch.diff"
@@ -40,7 +41,7 @@ def main():
     args = sys.argv[1:]
     all_props = "--all-props" in args
     args = [a for a in args if not a.startswith("--")]
-    dirs = args or sorted(glob.glob(os.path.join(VERIF, "seeded", "*"))) + sorted(glob.glob("/tmp/seeded_out/*/[0-9]*"))
+    dirs = args or sorted(glob.glob(os.path.join(VERIF, "seeded", "*"))) + sorted(glob.glob("/tmp/agents/out/*/[0-9]*"))
     with ThreadPoolExecutor(8) as ex:
         out = list(ex.map(lambda d: run_one(d, all_props), dirs))
     caught = 0
